@@ -219,5 +219,5 @@ def duplex_case(maxlen):
 
 def cases(tier):
     if tier == "quick":
-        return [read_case(4, 2, [0, 2]), read_case(3, 3, [-1]), readlines_case(4), write_case(3, [0, 1, 3]), duplex_case(4)]
+        return [read_case(4, 2, [0, 2]), read_case(3, 3, [-1]), readlines_case(4), write_case(3, [0, 1, 2, 3]), duplex_case(4)]
     return [read_case(6, 2, [0, 1, 2, 3]), read_case(4, 3, [0, 2, -1]), readlines_case(6), write_case(4, [0, 1, 2, 3, -1]), duplex_case(6)]
